@@ -95,6 +95,8 @@ def same(a, b):
     """identity of a current object with an object of the old snapshot"""
     if a is b:
         return True
+    if isinstance(a, tuple) and isinstance(b, tuple):
+        return len(a) == len(b) and all(same(x, y) or x == y for x, y in zip(a, b))
     memo = _STATE.get("memo")
     if memo is not None:
         return memo.get(id(a)) is b or memo.get(id(b)) is a
